@@ -140,4 +140,17 @@ example : (forwardLaw (fun _ => 2) [(0, Factor.mk [0] [2] #[1/2, 1/2])] [((fun _
 example : jointDen [Factor.mk [0] [2] #[1/2, 1/2]] (fun _ => 0) = 1/2 := by
   simp [jointDen, prodR, Factor.den, ravel]
 
+
+/-- **sampling around supplied values** (`partial_samples`, `do`, fixed evidence): with the supplied variables held at their values,
+    every outcome carries exactly those values, and its mass is the product of the CPD entries of the variables that were *drawn*
+    (given their parents' values in the same row - supplied or drawn) -/
+theorem C07_partial_law (K : Var → Nat) (given : Var → Option Nat) (L : List (Var × Factor)) (a0 : Asg) (hL : Topo L)
+    (o : Asg × Rat × Rat) (ho : o ∈ lwLaw K given L [(a0, 1, 1)]) :
+    o.2.1 = jointDen ((L.filter (fun p => !(given p.1).isSome)).map Prod.snd) o.1 ∧
+    (∀ p ∈ L, ∀ e, given p.1 = some e → o.1 p.1 = e) := by
+  obtain ⟨o0, h0, _, hm, _, hev⟩ := lwLaw_spec K given L _ hL o ho
+  simp only [List.mem_singleton] at h0
+  subst h0
+  exact ⟨by rw [hm]; ring, hev⟩
+
 end PgmVerif
